@@ -206,10 +206,6 @@ MUTANTS = [
         BeginMath.disableMath = EndMath.disableMath = False""",
      """        a = self.parse(tex)
         EndMath.disableMath = False"""),
-    ('C17', 'unmix-skipped', 'plasTeX/Renderers/__init__.py',
-     """        del Node.renderer
-        unmix(Node, type(self).renderableClass)""",
-     """        del Node.renderer"""),
     ('C17', 'enable-missing-on-number-path', 'plasTeX/TeX.py',
      """        if type in ['MuGlue','MuSkip']:
             n = self.readMuGlue()
@@ -221,7 +217,16 @@ MUTANTS = [
     ('C17', 'packageResources-class-level', 'plasTeX/__init__.py',
      """        self.packageResources = []
         self.rendererdata = dict()""",
-     """        self.rendererdata = dict()"""),
+     """        self.packageResources = _SHARED_RESOURCES
+        self.rendererdata = dict()"""),
+    ('C17', 'enable-missing-on-dimen-path', 'plasTeX/TeX.py',
+     """        if type in ['Dimen','Length','Dimension']:
+            n = self.readDimen()
+            ParameterCommand.enable()
+            return n, n.source""",
+     """        if type in ['Dimen','Length','Dimension']:
+            n = self.readDimen()
+            return n, n.source"""),
     # ---------------- C13
     ('C13', 'split-level-off-by-one', 'plasTeX/Renderers/__init__.py',
      """            if self.level > level:
@@ -277,4 +282,5 @@ MUTANTS = [
 # a helper that the 'list-depth-back-on-class' mutant needs (module-level dict shared by all documents)
 EXTRA = {
     'list-depth-back-on-class': ('plasTeX/Base/LaTeX/Lists.py', "\n_UD = {}\n"),
+    'packageResources-class-level': ('plasTeX/__init__.py', "\n_SHARED_RESOURCES = []\n"),
 }
